@@ -283,7 +283,7 @@ def _task(mode, with_bond, monotone=False):
         axioms=arith_axioms,
         refine_axioms=exact_arith,
         assumes=[
-            "products of two unknown reals (cutoff * total weight, cutoff * largest value, value ** 2) are abstracted by uninterpreted functions with the order axioms of real multiplication (commutative, monotone for non-negative factors, squares non-negative and monotone on non-negative reals)",
+            "products of two unknown reals (cutoff * total weight, cutoff * largest value, value ** 2) are abstracted by uninterpreted functions with the order axioms of real multiplication (commutative, monotone for non-negative factors, squares non-negative and monotone on non-negative reals; machine-checked in Lean: contracts/lean/Fold.lean AX_mul_comm, AX_mul_mono, AX_mul_nonneg, AX_sq_nonneg, AX_sq_mono); a refutation found under the abstraction is re-checked with the exact product",
             "A-numpy: sort, cumsum (ghost fold), count_nonzero, **, >=, 1-D indexing have their mathematical meaning; reals instead of floats (A-float)",
             "lemma instances: a fold of non-negative terms is monotone; a monotone boolean sequence has a boundary index and its number of true entries is length - boundary (machine-checked in Lean: contracts/lean/Fold.lean LS_cum_mono, LB_boundary, LB_count)",
             "prefix of svd_truncated only: statements after `sub_max_bonds = [...]` (slicing of the factors, absorption) are not interpreted here (bounded tier C13)",
